@@ -382,6 +382,10 @@ func (s *State) Import(state types.AppState, version string) error {
 		s.FrozenFunds.AddFund(ff.Height, ff.Address, ff.CandidateKey, uint32(ff.CandidateID), coinID, value, uint32(ff.MoveToCandidateID))
 	}
 
+	for _, hb := range state.HaltBlocks {
+		s.Halts.AddHaltBlock(hb.Height, hb.CandidateKey)
+	}
+
 	s.Swapper().Import(&state)
 
 	c := state.Commission
